@@ -53,6 +53,7 @@ type Contract struct {
 	Light    bool // light (tolerant) mode: only pre-of/assert obligations, unknown constructs havoc
 	Props    []string
 	Requires []*Clause
+	Reveals  []*Clause
 	Domain   []*Clause // verified only for inputs satisfying these; not checked at call sites (ensures become conditional)
 	Ensures  []*Clause
 	Assigns  []*Clause // each: one lvalue expression, or "nothing"/"everything"
@@ -77,7 +78,7 @@ type ContractSet struct {
 	Order   []string
 }
 
-var kwRe = regexp.MustCompile(`^(func|trusted|spec|opaque|declare|axiom|lemma|constglobal|props|requires|domain|ensures|assigns|loop|inline|light|assert|pure|stable|ghost|maypanic|note)\b`)
+var kwRe = regexp.MustCompile(`^(func|trusted|spec|opaque|declare|axiom|lemma|constglobal|props|requires|reveal|domain|ensures|assigns|loop|inline|light|assert|pure|stable|ghost|maypanic|note)\b`)
 var nameRe = regexp.MustCompile(`^\[([A-Za-z0-9_\-:#.]+)\]\s*`)
 
 func newContractSet() *ContractSet {
@@ -173,6 +174,19 @@ func (cs *ContractSet) readContractFile(path, pkgPath string) error {
 		case "note":
 			if cur != nil {
 				cur.Notes = append(cur.Notes, rest)
+			}
+		case "reveal":
+			// function-level reveal: the definition of an opaque spec function at the given
+			// arguments (evaluated at function entry) is available to the proof
+			if cur == nil {
+				return fail("reveal outside func")
+			}
+			for _, part := range splitTop(rest, ',') {
+				c, err := mkClause("reveal", strings.TrimSpace(part), path, s.line)
+				if err != nil {
+					return fail("%v", err)
+				}
+				cur.Reveals = append(cur.Reveals, c)
 			}
 		case "domain":
 			if cur == nil {
